@@ -13,14 +13,15 @@ Hot spots, line for line:
 * `clampOff`, `clampEnd`, `substrBounds`, `subsliceStr`, `subsliceArr` — `${v:o:l}`: brush-core/src/expansion.rs
   `ParameterExpr::Substring` arm (clamping) and `Expansion::polymorphic_subslice`;
 * `indexKey` — brush-core/src/variables.rs `get_key_for_indexed_array`;
-* `braceNumber` — brush-parser/src/word.rs rule `number()` (`n.parse().unwrap()`);
+* `braceNumber` — brush-parser/src/word.rs rule `number()` (`n.parse::<i64>()`, the rule fails when out of range);
 * `numSeq`, `charSeq` — brush-core/src/braceexpansion.rs `expand_brace_expr_member`;
-* `histSkip` — brush-builtins/src/history.rs `display_history` (`item_count - max_entries`);
+* `histSkip` — brush-builtins/src/history.rs `display_history` (`item_count.saturating_sub(max_entries)`);
 * `loopLevels`, `decr`, `forLoop`, `nest3` — brush-builtins/src/{break_,continue_}.rs,
   brush-core/src/results.rs `try_decrement_loop_levels`, the `for` loop of brush-core/src/interp.rs.
 
 Every function is total (structural recursion or an explicit measure): a Rust loop that would
-never come back is an explicit outcome, `Panic.hang`.
+never come back would have to be an explicit outcome, `Panic.hang` (none of the modelled loops is
+one any more since the repair of the character sequences).
 -/
 namespace BrushVerif.Checked
 open BrushVerif.Wire
@@ -189,43 +190,35 @@ def indexKey (alen : Nat) (idx : Int) : Ck (Option Nat) :=
 
 /-! ## brace expansion -/
 
-/-- rule `number()`: `sign? digits`, `digits.parse::<i64>().unwrap() * sign` -/
-def braceNumber (neg : Bool) (digits : Nat) : Ck Int :=
-  if (digits : Int) ≤ I64_MAX then i64Mul digits (if neg then -1 else 1) else .error .unwrapErr
+/-- rule `number()`: `sign? digits` parsed as one `i64`; `none` = the rule fails (the braces are then
+not a sequence expression and the word stays literal text) -/
+def braceNumber (neg : Bool) (digits : Nat) : Option Int :=
+  let v : Int := if neg then -(digits : Int) else digits
+  if inI64 v then some v else none
 
-/-- ascending `(start..=end).step_by(inc)`: `start, start+inc, … ≤ end` (`Step::forward_checked`
-ends the iteration where the next value would not fit); `inc ≥ 1` always holds at the call site -/
+/-- the increment as all four arms use it: `unsigned_abs().max(1)` (a `u64`) -/
+def stepOf (inc : Int) : Nat := max (unsignedAbs inc) 1
+
+/-- ascending `(start..=end).step_by(step)`: `start, start+step, … ≤ end` (`Step::forward_checked`
+ends the iteration where the next value would not fit) -/
 def ascFrom (n end_ : Int) (inc : Nat) : List Int :=
   if h : 0 < inc ∧ n ≤ end_ then n :: ascFrom (n + inc) end_ inc else []
 termination_by (end_ - n + 1).toNat
 decreasing_by omega
 
-/-- descending `successors(Some(start), |n| { let next = n - inc; (next >= end).then_some(next) })`,
-after `start` has been produced.  `inc ≤ 0` only for `increment = i64::MIN` (`2^63 as i64`): then
-`n - i64::MIN` overflows at the first or the second step. -/
-def descFrom (n end_ inc : Int) : Ck (List Int) :=
-  if hpos : 0 < inc then
-    (if inI64 (n - inc) then
-      (if hge : n - inc ≥ end_ then
-        (match descFrom (n - inc) end_ inc with
-         | .ok rest => .ok ((n - inc) :: rest)
-         | .error e => .error e)
-      else .ok [])
-    else .error .subOverflow)
-  else .error .subOverflow
+/-- descending `successors(Some(start), |n| { let next = i64::try_from(i128::from(n) - i128::from(step)).ok()?;
+(next >= end).then_some(next) })`, after `start` has been produced: the difference is taken in
+`i128` (no overflow), a value that leaves `i64` or passes `end` ends the sequence -/
+def descFrom (n end_ : Int) (inc : Nat) : List Int :=
+  if h : 0 < inc ∧ inI64 (n - inc) = true ∧ n - inc ≥ end_ then (n - inc) :: descFrom (n - inc) end_ inc
+  else []
 termination_by (n - end_ + 1).toNat
 decreasing_by omega
 
-/-- the increment as both arms use it: `unsigned_abs() as usize`, 0 replaced by 1 -/
-def stepOf (inc : Int) : Nat := if asUsize (unsignedAbs inc) = 0 then 1 else asUsize (unsignedAbs inc)
-
 /-- `NumberSequence { start, end, increment }` -/
-def numSeq (start end_ inc : Int) : Ck (List Int) :=
-  if start ≤ end_ then .ok (ascFrom start end_ (stepOf inc))
-  else
-    match descFrom start end_ (asI64 (stepOf inc)) with
-    | .ok rest => .ok (start :: rest)
-    | .error e => .error e
+def numSeq (start end_ inc : Int) : List Int :=
+  if start ≤ end_ then ascFrom start end_ (stepOf inc)
+  else start :: descFrom start end_ (stepOf inc)
 
 /-- number of words an ascending sequence produces: it is the *literal's* value that bounds the
 allocation, not the length of the script -/
@@ -240,34 +233,27 @@ decreasing_by omega
 
 def isScalarValue (n : Nat) : Bool := n < 0xD800 || (0xE000 ≤ n && n ≤ 0x10FFFF)
 
-/-- descending `successors(Some(start), |c| { let next = char::from_u32(c as u32 - inc)?; (next >= end).then_some(next) })`
-after `start` has been produced.  With `inc = 0` (`increment as u32 == 0`) the closure returns its
-argument again and again: the iterator never ends. -/
-def descChars (c end_ inc : Nat) : Ck (List Nat) :=
-  if hpos : 0 < inc then
-    (if hsub : inc ≤ c then
-      (if isScalarValue (c - inc) && decide (c - inc ≥ end_) then
-        (match descChars (c - inc) end_ inc with
-         | .ok rest => .ok ((c - inc) :: rest)
-         | .error e => .error e)
-      else .ok [])
-    else .error .subOverflow)
-  else .error .hang
+/-- `u32::try_from(step).unwrap_or(u32::MAX)` -/
+def stepU32 (step : Nat) : Nat := if step < 4294967296 then step else 4294967295
+
+/-- descending `successors(Some(start), |c| { let next = char::from_u32(u32::from(c).checked_sub(step)?)?;
+(next >= end).then_some(next) })` after `start` has been produced -/
+def descChars (c end_ inc : Nat) : List Nat :=
+  if h : 0 < inc ∧ inc ≤ c ∧ isScalarValue (c - inc) = true ∧ c - inc ≥ end_ then
+    (c - inc) :: descChars (c - inc) end_ inc
+  else []
 termination_by c
 decreasing_by omega
 
 /-- `CharSequence { start, end, increment }` on code points -/
-def charSeq (start end_ : Nat) (inc : Int) : Ck (List Nat) :=
-  if start ≤ end_ then .ok (ascChars start end_ (stepOf inc))
-  else
-    match descChars start end_ (asU32 (stepOf inc)) with
-    | .ok rest => .ok (start :: rest)
-    | .error e => .error e
+def charSeq (start end_ : Nat) (inc : Int) : List Nat :=
+  if start ≤ end_ then ascChars start end_ (stepOf inc)
+  else start :: descChars start end_ (stepU32 (stepOf inc))
 
 /-! ## `history N` -/
 
-/-- `display_history`: `item_count - max_entries.unwrap_or(item_count)` -/
-def histSkip (count : Nat) (maxEntries : Option Nat) : Ck Nat := usizeSub count (maxEntries.getD count)
+/-- `display_history`: `item_count.saturating_sub(max_entries.unwrap_or(item_count))` -/
+def histSkip (count : Nat) (maxEntries : Option Nat) : Nat := count - maxEntries.getD count
 
 /-! ## `break N` / `continue N` -/
 
